@@ -1,1 +1,250 @@
+/-
+  Property C15 — reading a keystore file is total: malformed files give errors, never panics.
+  Model: FFS.Model.Keystore.readWalletFile (pkg/keystorev3: ReadWalletFile, the scrypt / PBKDF2 decrypt paths with
+  the argument checks of golang.org/x/crypto, decryptCommon). Spec: FFS.Spec.KeystoreV3.v3Read (an independent V3
+  reader written from the Web3 Secret Storage Definition). JSON decoding into the package's structs is shared glue
+  (hook VerifParse); the decoded fields are the input here, so "any byte string" = any `KsFile` (including the two
+  decode-error flags).
+  * `read_total`          : no panic for any decoded file and any password.
+  * `read_needs_mac`      : a key is returned only when keccak256(DK[16:32] ‖ ciphertext) equals the stored MAC, the IV
+                            has 16 bytes, the version is 3 and dklen is 32 — and the key is AES-128-CTR(DK[0:16]).
+  * `read_sound_partial`  : every key returned for a file that declares cipher aes-128-ctr is the key the independent
+                            reader derives. PARTIAL: without the cipher hypothesis the statement is false of the code
+                            (known finding C15-cipher-unchecked: the cipher member is never looked at) —
+                            `cipher_unchecked_witness` exhibits the disagreement.
+-/
 import FFS.Model.Keystore
+import FFS.Spec.KeystoreV3
+namespace FFS.Props.C15
+open FFS FFS.Model.Keystore FFS.Gen.KeystoreConsts
+
+/-- the regenerated guards -/
+theorem facts : paramsChecked = true ∧ ivChecked = true ∧ macBeforeDecrypt = true ∧ readShape = true ∧
+    version3 = 3 ∧ kdfTypeScrypt = "scrypt" ∧ kdfTypePbkdf2 = "pbkdf2" ∧ prfHmacSHA256 = "hmac-sha256" ∧
+    cipherAES128ctr = "aes-128-ctr" := by decide
+
+theorem scryptKey_ne_panic (pw salt : Bytes) (n r p keyLen : Int) (hr : 0 < r) (hp : 0 < p) (hk : 0 ≤ keyLen) :
+    scryptKey pw salt n r p keyLen ≠ .panic := by
+  unfold scryptKey
+  split
+  · simp
+  · split
+    · simp
+    · split
+      · rename_i h; omega
+      · split
+        · simp
+        · split
+          · omega
+          · simp
+
+theorem pbkdf2Key_ne_panic (pw salt : Bytes) (c keyLen : Int) (hk : 0 ≤ keyLen) : pbkdf2Key pw salt c keyLen ≠ .panic := by
+  unfold pbkdf2Key
+  split
+  · omega
+  · simp
+
+theorem decryptCommon_ne_panic (f : KsFile) (dk : Bytes) : decryptCommon f dk ≠ .panic := by
+  unfold decryptCommon
+  simp only [facts.2.1, Bool.true_and]
+  split
+  · simp
+  · split
+    · simp
+    · split
+      · simp
+      · split
+        · rename_i h1 _ h2; simp at h1; exact absurd h2 (by simpa using h1)
+        · simp
+
+theorem decryptScrypt_ne_panic (f : KsFile) (pw : Bytes) : decryptScrypt f pw ≠ .panic := by
+  unfold decryptScrypt
+  simp only [facts.1, Bool.true_and]
+  split
+  · simp
+  · rename_i hd
+    split
+    · simp
+    · rename_i hrp
+      have hd' : f.dklen = 32 := by simpa using hd
+      have hrp' : 0 < f.r ∧ 0 < f.p := by
+        have : ¬ (f.r ≤ 0 ∨ f.p ≤ 0) := by simpa using hrp
+        omega
+      have := scryptKey_ne_panic pw f.salt f.n f.r f.p f.dklen hrp'.1 hrp'.2 (by omega)
+      split
+      · exact decryptCommon_ne_panic _ _
+      · simp
+      · rename_i h; exact absurd h this
+
+theorem decryptPbkdf2_ne_panic (f : KsFile) (pw : Bytes) : decryptPbkdf2 f pw ≠ .panic := by
+  unfold decryptPbkdf2
+  simp only [facts.1, Bool.true_and]
+  split
+  · simp
+  · split
+    · simp
+    · rename_i hd
+      split
+      · simp
+      · have hd' : f.dklen = 32 := by simpa using hd
+        have := pbkdf2Key_ne_panic pw f.salt f.c f.dklen (by omega)
+        split
+        · exact decryptCommon_ne_panic _ _
+        · simp
+        · rename_i h; exact absurd h this
+
+/-- **Totality.** Reading any decoded file with any password never panics. -/
+theorem read_total (f : KsFile) (pw : Bytes) : readWalletFile f pw ≠ .panic := by
+  unfold readWalletFile
+  split
+  · simp
+  · split
+    · simp
+    · split
+      · simp
+      · split
+        · split
+          · simp
+          · exact decryptScrypt_ne_panic f pw
+        · split
+          · split
+            · simp
+            · exact decryptPbkdf2_ne_panic f pw
+          · simp
+
+theorem decryptCommon_ok (f : KsFile) (dk k : Bytes) (h : decryptCommon f dk = .ok k) :
+    dk.length = 32 ∧ f.iv.length = 16 ∧ Prim.keccak256 ((dk.drop 16).take 16 ++ f.ciphertext) = f.mac ∧
+    k = Prim.aes128Ctr (dk.take 16) f.iv f.ciphertext := by
+  unfold decryptCommon at h
+  simp only [facts.2.1, Bool.true_and] at h
+  by_cases h1 : dk.length ≠ 32
+  · simp [h1] at h
+  · by_cases h2 : f.iv.length ≠ 16
+    · simp [h1, h2] at h
+    · by_cases h3 : generateMac ((dk.drop 16).take 16) f.ciphertext ≠ f.mac
+      · simp [h1, h2, h3] at h
+      · simp only [h1, h2, h3, decide_false, if_false, Bool.false_eq_true] at h
+        injection h with h
+        exact ⟨by simpa using h1, by simpa using h2, by simpa [generateMac] using h3, h.symm⟩
+
+theorem scryptKey_ok (pw salt : Bytes) (n r p kl : Int) (dk : Bytes) (h : scryptKey pw salt n r p kl = .ok dk) :
+    1 < n ∧ isPow2 n.toNat = true ∧ 0 < r ∧ 0 < p ∧ r * p < 2 ^ 30 ∧ 0 ≤ kl ∧
+    dk = Prim.scrypt pw salt n.toNat r.toNat p.toNat kl.toNat := by
+  unfold scryptKey at h
+  by_cases h1 : n ≤ 1 ∨ (!isPow2 n.toNat) = true
+  · rw [if_pos h1] at h; cases h
+  · rw [if_neg h1] at h
+    by_cases h2 : r < 0 ∨ p < 0
+    · rw [if_pos h2] at h; cases h
+    · rw [if_neg h2] at h
+      by_cases h3 : p = 0 ∨ r = 0
+      · rw [if_pos h3] at h; cases h
+      · rw [if_neg h3] at h
+        by_cases h4 : r * p ≥ 2 ^ 30 ∨ r > maxInt / 128 / p ∨ r > maxInt / 256 ∨ n > maxInt / 128 / r
+        · rw [if_pos h4] at h; cases h
+        · rw [if_neg h4] at h
+          by_cases h5 : kl < 0
+          · rw [if_pos h5] at h; cases h
+          · rw [if_neg h5] at h
+            injection h with h
+            have hpow : isPow2 n.toNat = true := by
+              have : ¬ (!isPow2 n.toNat) = true := fun e => h1 (Or.inr e)
+              simpa using this
+            have h4' : ¬ r * p ≥ 2 ^ 30 := fun e => h4 (Or.inl e)
+            refine ⟨by omega, hpow, by omega, by omega, by omega, by omega, h.symm⟩
+
+/-- the derived key a successful read used -/
+theorem read_ok_shape (f : KsFile) (pw k : Bytes) (h : readWalletFile f pw = .ok k) :
+    f.commonErr = false ∧ f.idNil = false ∧ f.kdfErr = false ∧ f.version = 3 ∧ f.dklen = 32 ∧
+    ((f.kdf = "scrypt" ∧ 1 < f.n ∧ isPow2 f.n.toNat = true ∧ 1 ≤ f.r ∧ 1 ≤ f.p ∧ f.r * f.p < 2 ^ 30 ∧
+        decryptCommon f (Prim.scrypt pw f.salt f.n.toNat f.r.toNat f.p.toNat 32) = .ok k) ∨
+     (f.kdf = "pbkdf2" ∧ f.prf = "hmac-sha256" ∧ 1 ≤ f.c ∧
+        decryptCommon f (Prim.pbkdf2Sha256 pw f.salt f.c.toNat 32) = .ok k)) := by
+  unfold readWalletFile at h
+  by_cases h1 : f.commonErr = true
+  · simp [h1] at h
+  · by_cases h2 : f.idNil = true
+    · simp [h1, h2] at h
+    · by_cases h3 : f.version ≠ version3
+      · simp [h1, h2, h3] at h
+      · have hv : f.version = 3 := by simpa [facts.2.2.2.2.1] using h3
+        simp only [h1, h2, h3, if_false, Bool.false_eq_true] at h
+        by_cases hk : f.kdf = kdfTypeScrypt
+        · simp only [hk, if_true] at h
+          by_cases hke : f.kdfErr = true
+          · simp [hke] at h
+          · simp only [hke, if_false, Bool.false_eq_true] at h
+            unfold decryptScrypt at h
+            simp only [facts.1, Bool.true_and] at h
+            by_cases hd : f.dklen ≠ 32
+            · simp [hd] at h
+            · have hd' : f.dklen = 32 := by simpa using hd
+              by_cases hrp : f.r ≤ 0 ∨ f.p ≤ 0
+              · simp [hd', hrp] at h
+              · simp only [hd', hrp, ne_eq, not_true_eq_false, decide_false, if_false, Bool.false_eq_true] at h
+                cases hs : scryptKey pw f.salt f.n f.r f.p 32 with
+                | ok dk =>
+                  rw [hs] at h
+                  obtain ⟨a1, a2, a3, a4, a5, _, a7⟩ := scryptKey_ok _ _ _ _ _ _ _ hs
+                  subst a7
+                  exact ⟨by simpa using h1, by simpa using h2, by simpa using hke, hv, hd',
+                    Or.inl ⟨by simpa [facts.2.2.2.2.2.1] using hk, a1, a2, by omega, by omega, a5, by simpa using h⟩⟩
+                | err => rw [hs] at h; cases h
+                | panic => rw [hs] at h; cases h
+        · simp only [hk, if_false] at h
+          by_cases hk2 : f.kdf = kdfTypePbkdf2
+          · simp only [hk2, if_true] at h
+            by_cases hke : f.kdfErr = true
+            · simp [hke] at h
+            · simp only [hke, if_false, Bool.false_eq_true] at h
+              unfold decryptPbkdf2 at h
+              simp only [facts.1, Bool.true_and] at h
+              by_cases hprf : f.prf ≠ prfHmacSHA256
+              · simp [hprf] at h
+              · by_cases hd : f.dklen ≠ 32
+                · simp [hprf, hd] at h
+                · have hd' : f.dklen = 32 := by simpa using hd
+                  by_cases hc : f.c ≤ 0
+                  · simp [hprf, hd', hc] at h
+                  · simp only [hprf, hd', hc, ne_eq, not_true_eq_false, decide_false, if_false, Bool.false_eq_true] at h
+                    have hmax : max f.c 1 = f.c := by omega
+                    simp only [pbkdf2Key, show ¬ ((32 : Int) < 0) by decide, if_false, hmax] at h
+                    exact ⟨by simpa using h1, by simpa using h2, by simpa using hke, hv, hd',
+                      Or.inr ⟨by simpa [facts.2.2.2.2.2.2.1] using hk2, by simpa [facts.2.2.2.2.2.2.2.1] using hprf, by omega, by simpa using h⟩⟩
+          · simp [hk2] at h
+
+/-- **A key is returned only under a valid MAC.** -/
+theorem read_needs_mac (f : KsFile) (pw k : Bytes) (h : readWalletFile f pw = .ok k) :
+    ∃ dk : Bytes, dk.length = 32 ∧ f.iv.length = 16 ∧ Prim.keccak256 ((dk.drop 16).take 16 ++ f.ciphertext) = f.mac ∧
+      k = Prim.aes128Ctr (dk.take 16) f.iv f.ciphertext := by
+  obtain ⟨_, _, _, _, _, hk⟩ := read_ok_shape f pw k h
+  rcases hk with ⟨_, _, _, _, _, _, hd⟩ | ⟨_, _, _, hd⟩
+  · exact ⟨Prim.scrypt pw f.salt f.n.toNat f.r.toNat f.p.toNat 32, decryptCommon_ok f _ k hd⟩
+  · exact ⟨Prim.pbkdf2Sha256 pw f.salt f.c.toNat 32, decryptCommon_ok f _ k hd⟩
+
+/-- **Soundness against the independent reader (partial: for files declaring aes-128-ctr).** -/
+theorem read_sound_partial (f : KsFile) (pw k : Bytes) (hc : f.cipher = "aes-128-ctr")
+    (h : readWalletFile f pw = .ok k) : Spec.KeystoreV3.v3Read f pw = some k := by
+  obtain ⟨h1, h2, h3, hv, hd, hk⟩ := read_ok_shape f pw k h
+  unfold Spec.KeystoreV3.v3Read
+  rcases hk with ⟨hkdf, hn, hpow, hr, hp, hrp, hdc⟩ | ⟨hkdf, hprf, hcc, hdc⟩
+  · obtain ⟨_, hiv, hmac, hkey⟩ := decryptCommon_ok f _ k hdc
+    have hcond : f.n > 1 ∧ isPow2 f.n.toNat = true ∧ f.r ≥ 1 ∧ f.p ≥ 1 ∧ f.r * f.p < 2 ^ 30 := ⟨hn, hpow, hr, hp, hrp⟩
+    have hrp' : f.r * f.p < 1073741824 := by simpa using hrp
+    simp [h1, h2, h3, hv, hc, hiv, hd, hkdf, hcond, hrp', hmac, hkey]
+  · obtain ⟨_, hiv, hmac, hkey⟩ := decryptCommon_ok f _ k hdc
+    have hne : ¬ ("pbkdf2" = "scrypt") := by decide
+    have hcond : f.prf = "hmac-sha256" ∧ f.c ≥ 1 := ⟨hprf, hcc⟩
+    simp [h1, h2, h3, hv, hc, hiv, hd, hkdf, hne, hcond, hmac, hkey]
+
+/-- the full statement fails on the code: a file that declares another cipher is still decrypted as AES-128-CTR by
+    the model (mirroring the code), while the independent reader refuses it (known finding C15-cipher-unchecked) -/
+theorem cipher_unchecked_witness (f : KsFile) (pw k : Bytes) (h : readWalletFile f pw = .ok k) :
+    readWalletFile { f with cipher := "aes-256-cbc" } pw = .ok k ∧
+    Spec.KeystoreV3.v3Read { f with cipher := "aes-256-cbc" } pw = none := by
+  constructor
+  · simpa [readWalletFile, decryptScrypt, decryptPbkdf2, decryptCommon] using h
+  · obtain ⟨h1, h2, h3, hv, _⟩ := read_ok_shape f pw k h
+    simp [Spec.KeystoreV3.v3Read, h1, h2, h3, hv]
+
+end FFS.Props.C15
